@@ -37,7 +37,7 @@ ANCHORS = [
 FLOORS = {'*': {'op:add': 500, 'op:replace': 50, 'op:remove-method': 50, 'op:remove-endpoint': 30, 'op:reset': 30,
                 'op:call': 500, 'op:batch': 200, 'op:batch-of-one': 50, 'op:replace-negative-index': 20, 'op:restart': 50, 'backend:runs': 12, 'backend:passthrough': 4, 'once-exhausted-inside-batch': 10, 'passthrough': 50, 'refused': 50,
                 'unpatched-method': 50, 'client:sync': 200, 'client:async': 200, 'round-robin>=3': 30, 'callback': 50,
-                'id:falsy': 30, 'configured-error-through-the-client-api': 300, 'configured-error:code-with-a-class-of-its-own': 150}}
+                'id:falsy': 30, 'configured-error-through-the-client-api': 300, 'calls-through-client-notations': 60, 'notation:batch-getitem': 8, 'configured-error:code-with-a-class-of-its-own': 150}}
 
 ENDPOINTS = ['ep1', 'ep2']
 METHODS = ['ma', 'mb']
@@ -438,6 +438,66 @@ def run_client_error(ctx, code, message, data, how, is_async):
             pass
 
 
+ARG_SHAPES = [([{'name': 'bob'}], {}), ([{'a': 1, 'b': [2]}], {}), ([1, {'k': 2}], {}), ([[1, 2]], {}), ([], {'name': 'bob'}), ([None], {}),
+              ([{}], {}), (['s'], {})]
+
+
+def run_client_calls(ctx, notation, shape, is_async):
+    """calls made through the real client's notations: the mocker records every call with ITS arguments (a dict handed over as
+    the single positional argument is a positional argument) and the callback is invoked with them"""
+    ck = 'async' if is_async else 'sync'
+    target = f'{__name__}.{"MAsync" if is_async else "MSync"}._request'
+    args, kwargs = ARG_SHAPES[shape]
+
+    def real_transport(text, is_notification, kw):
+        raise AssertionError('real transport reached')
+    client = (MAsync if is_async else MSync)(real_transport, endpoint='ep1')
+    seen = []
+
+    def cb(*a, **k):
+        seen.append((list(a), dict(k)))
+        return 'cb'
+    cls = ('client-calls', notation, shape, ck)
+    wit = dict(notation=notation, arguments=[args, kwargs], client=ck)
+    mocker = PjRpcMocker(target, passthrough=False)
+    mocker.start()
+    try:
+        mocker.add('ep1', 'ma', callback=cb)
+        if notation == 'call':
+            op = lambda: client.call('ma', *args, **kwargs)
+        elif notation == 'proxy':
+            op = lambda: client.proxy.ma(*args, **kwargs)
+        elif notation == 'batch-add':
+            op = lambda: client.batch.add('ma', *args, **kwargs).call()
+        elif notation == 'batch-call':
+            op = lambda: client.batch('ma', *args, **kwargs).call()
+        elif notation == 'batch-proxy':
+            op = lambda: client.batch.proxy.ma(*args, **kwargs).call()
+        else:
+            op = lambda: client.batch[('ma', *args),]       # (a one-element tuple of calls)
+        st, out = clientside.outcome_of(op, is_async)
+        ctx.hit('calls-through-client-notations')
+        ctx.hit('notation:' + notation)
+        want_out = 'cb' if notation in ('call', 'proxy') else ('cb',)
+        if st != 'ret' or (tuple(out) if isinstance(out, (list, tuple)) else out) != want_out:
+            ctx.violation('patched-call-through-the-client-not-answered-by-the-callback', 'client-calls', cls, outcome=[st, out], **wit)
+            return
+        if seen != [(args, kwargs)]:
+            ctx.violation('callback-invoked-with-other-arguments-than-the-call', 'client-calls', cls, callback_saw=seen, **wit)
+            return
+        stub = mocker.calls.get('ep1', {}).get(('2.0', 'ma'))
+        got = [(list(c.args), dict(c.kwargs)) for c in (stub.call_args_list if stub is not None else [])]
+        if got != [(args, kwargs)]:
+            ctx.violation('recorded-calls-differ:arguments', 'client-calls', cls, recorded=got, **wit)
+            return
+        ctx.ok('client-calls:' + notation, cls, sample=wit)
+    finally:
+        try:
+            mocker.stop()
+        except Exception:
+            pass
+
+
 def call_ops(rng, rich):
     ids = [1, 7, 0, 'x', '']
     out = []
@@ -529,6 +589,12 @@ def gen(ctx):
                 for how in ('send', 'call', 'batch'):
                     k += 1
                     yield 'client_error', dict(code=code, message=message, data=data, how=how, is_async=bool(k % 2))
+    for notation in ('call', 'proxy', 'batch-add', 'batch-call', 'batch-proxy', 'batch-getitem'):
+        for shape, (a_, k_) in enumerate(ARG_SHAPES):
+            if notation == 'batch-getitem' and k_:
+                continue          # the subscription notation is positional
+            for is_async in (False, True):
+                yield 'client_calls', dict(notation=notation, shape=shape, is_async=is_async)
     for backend in ('requests', 'httpx', 'httpx-async', 'aiohttp'):
         yield 'backend_passthrough', dict(backend=backend)
         for url in URLS:
@@ -547,4 +613,4 @@ def gen(ctx):
         yield from emit(once + [['call', ep, [['mb', [1], 1]]], ['remove', ep, 'ma'], ['call', ep, [['ma', [3], 3]]]])
 
 
-KINDS = {'history': run_history, 'backend': run_backend, 'backend_passthrough': run_backend_passthrough, 'client_error': run_client_error}
+KINDS = {'history': run_history, 'backend': run_backend, 'backend_passthrough': run_backend_passthrough, 'client_error': run_client_error, 'client_calls': run_client_calls}
